@@ -730,13 +730,15 @@ def disc_schema_table_rule(cx, rep, rid, which="schema"):
                 return None      # a pattern this reading does not understand
         return None
 
-    def flag_guards(hit, tree):
-        """mode PARAMETERS (of the function or of a closure; bool-typed, or a fieldless project enum) read by the conditions
-        the narrowing call runs under: name -> the expressions that have to hold for the call to run whatever the data
-        (the flag itself; the `match` / comparison that reads the mode; ("arm", match, arm) when the call stands in an arm
-        of a `match` on the mode)"""
+    def flag_guards(hit, tree, env=None):
+        """mode PARAMETERS (of the function or of a closure; bool-typed, or a fieldless project enum) that decide whether
+        the narrowing call runs: what the conditions it stands under (`if`, the arm of a `match` on a mode) still depend
+        on once the parameter values in `env` (lid -> value_of) are put in - `narrow && key == d` depends on `narrow`,
+        not at all once narrow is known to be true; `matches!(mode, Always) || several` not on `several` under Always"""
         if tree is None:
-            return {}
+            return [], True
+        env = env or {}
+        taken = True     # False: a condition whose value is known under env excludes the site
         parents = {}
         for x in RF.walk(tree["body"]):
             for c_ in RF.children(x):
@@ -756,44 +758,54 @@ def disc_schema_table_rule(cx, rep, rid, which="schema"):
         for x in RF.walk(tree["body"]):
             if x["k"] == "LetStmt" and x.get("init") is not None and x["pat"].get("k") == "P.Binding":
                 lets[x["pat"].get("lid")] = x["init"]
-        bad = {}
+        ilets = imm_lets(tree)
+        bad = []
 
         def mode_param(z):
             while z["k"] in ("AddrOf", "DropTemps", "Paren") or (z["k"] == "Unary" and z.get("op") == "Deref"):
                 z = z["e"]
             return z if z["k"] == "Path" and z.get("res") == "local" and z.get("lid") in params and mode_enum(z.get("ty")) else None
 
-        def scan(e, depth=0):
-            readers = {}     # id(mode parameter node) -> the bool-valued expression that reads it
-            for z in RF.walk(e):
-                if z["k"] == "Match" and mode_param(z["scrut"]) is not None:
-                    readers.setdefault(id(mode_param(z["scrut"])), z)
-                elif z["k"] == "Binary" and z.get("op") in ("Eq", "Ne"):
-                    for side in (z["l"], z["r"]):
-                        if mode_param(side) is not None:
-                            readers.setdefault(id(mode_param(side)), z)
+        def scan(e, depth=0, known=True):
+            """known=False: every flag read counts (the condition is known to FAIL under env)"""
+            e = RF.strip_block(e)
+            if known and value_of(e, env, ilets) is not None:
+                return           # decided by the mode the schema table is built in: depends on nothing
+            if e["k"] == "Binary" and e.get("op") in ("And", "Or"):
+                scan(e["l"], depth, known)
+                scan(e["r"], depth, known)
+                return
+            if e["k"] == "Unary" and e.get("op") == "Not":
+                scan(e["e"], depth, known)
+                return
             for z in RF.walk(e):
                 if z["k"] == "Path" and z.get("res") == "local" and (z.get("ty") or "").replace("&", "").strip() == "bool":
                     if z.get("lid") in params:
-                        bad.setdefault(z.get("name"), []).append(z)
+                        bad.append(z.get("name"))
                     elif z.get("lid") in lets and depth < 3:
-                        scan(lets[z["lid"]], depth + 1)
+                        scan(lets[z["lid"]], depth + 1, known)
                 elif mode_param(z) is z:
-                    # a mode enum read by the condition: what has to hold is the test that reads it
-                    bad.setdefault(z.get("name"), []).append(readers.get(id(z), z))
+                    bad.append(z.get("name"))      # a mode enum read by the condition
         cur = hit
         while id(cur) in parents:
             par = parents[id(cur)]
             if par["k"] == "If" and not any(z is cur for z in RF.walk(par["cond"])):
-                scan(par["cond"])
+                v_ = value_of(par["cond"], env, ilets)
+                if v_ is not None and v_ is not (cur is not par.get("else")):
+                    taken = False
+                scan(par["cond"], 0, taken)
             if par["k"] == "Arm" and id(par) in parents and parents[id(par)]["k"] == "Match" and cur is not par.get("guard"):
                 m_ = parents[id(par)]
                 if mode_param(m_["scrut"]) is not None:
-                    bad.setdefault(mode_param(m_["scrut"]).get("name"), []).append(("arm", m_, par))
-                    if par.get("guard") is not None:
-                        scan(par["guard"])
+                    # the call stands in an arm of a `match` on the mode: the arm has to be the one the mode selects
+                    sel_ = selected_arm(m_, env, ilets)
+                    if sel_ is not par:
+                        taken = taken and (sel_ is None)
+                        bad.append(mode_param(m_["scrut"]).get("name"))
+                        if par.get("guard") is not None:
+                            scan(par["guard"], 0, False)
             cur = par
-        return bad
+        return sorted(set(bad)), taken
     n = 0
     for g in sorted(F.hir):
         f = F.fns.get(g)
@@ -831,17 +843,17 @@ def disc_schema_table_rule(cx, rep, rid, which="schema"):
                 continue
             if hit is not None:
                 otree = owner_of.get(id(hit))
-                guards = flag_guards(hit, otree)
-                flags = sorted(guards)
-                if flags and otree is not None and otree is not F.hir[g]:
+                flags, _ = flag_guards(hit, otree)
+                if otree is not None and otree is not F.hir[g]:
                     # a shared table builder with a mode parameter is fine when the SCHEMA table is built with the
                     # literal `true`: judge the flag at the calls that produce the last argument.
                     # b92 (round 11, Z3): the mode may be an enum (`NarrowDiscriminator::Always` at the schema-table
                     # call) that the builder turns into the flag of a further helper (`let narrow = match narrowing
                     # { Always => true, WhenShared => carriers.len() > 1 }; .. variant_case(.., narrow)`).  The values
                     # of the mode parameters are therefore carried from the calls that produce the last argument down
-                    # the helpers that lead to the narrowing call (not back through the printer's own recursion), and
-                    # every condition on a flag has to hold under every environment the helper is entered with.
+                    # the helpers that lead to the narrowing call (not back through the printer's own recursion); the
+                    # conditions around the narrowing call are judged under every environment its helper is entered
+                    # with, and so are the conditions around the helper calls on the way.
                     ogid = next((k_ for k_, v_ in F.hir.items() if v_ is otree), None)
 
                     def callees(e):
@@ -857,13 +869,18 @@ def disc_schema_table_rule(cx, rep, rid, which="schema"):
                             leads[tg_] = False
                             leads[tg_] = any(leads_to(t2) for _, t2 in callees(F.hir[tg_]["body"]))
                         return leads[tg_]
-                    entered, seen_env = [], set()
-                    work = [(r, {}, imm_lets(F.hir[g])) for r in roots]
+                    entered, seen_env, on_the_way = [], set(), set()
+                    work = [(r, {}, imm_lets(F.hir[g]), None) for r in roots]
                     while work:
-                        e_, env_, lets_ = work.pop()
+                        e_, env_, lets_, tree_ = work.pop()
                         for c_, tg_ in callees(e_):
                             if not leads_to(tg_):
                                 continue
+                            if tree_ is not None:
+                                fl_, taken_ = flag_guards(c_, tree_, env_)
+                                if not taken_:
+                                    continue     # this call is not made in the mode the schema table is built in
+                                on_the_way |= set(fl_)
                             args_ = ([c_["recv"]] if c_["k"] == "MethodCall" else []) + list(c_.get("args") or [])
                             cenv = {}
                             for i_, p_ in enumerate(F.hir[tg_].get("params", [])):
@@ -875,16 +892,9 @@ def disc_schema_table_rule(cx, rep, rid, which="schema"):
                             key_ = (tg_, tuple(sorted(cenv.items())))
                             if key_ not in seen_env and len(seen_env) < 64:
                                 seen_env.add(key_)
-                                work.append((F.hir[tg_]["body"], cenv, imm_lets(F.hir[tg_])))
-                    olets = imm_lets(otree)
-                    oparams = {p_.get("name") for p_ in otree.get("params", []) if p_.get("k") == "P.Binding"}
-
-                    def holds(atom, env_):
-                        if isinstance(atom, tuple):
-                            return selected_arm(atom[1], env_, olets) is atom[2]
-                        return value_of(atom, env_, olets) is True
-                    flags = [fl for fl in flags
-                             if fl not in oparams or not entered or not all(holds(a_, env_) for env_ in entered for a_ in guards[fl])]
+                                work.append((F.hir[tg_]["body"], cenv, imm_lets(F.hir[tg_]), F.hir[tg_]))
+                    if entered:
+                        flags = sorted(on_the_way | {fl_ for env_ in entered for fl_ in flag_guards(hit, otree, env_)[0]})
                 rep.ob(rid, "%s/narrowing-unconditional" % f.id.rsplit("::", 1)[-1], not flags,
                        "the entries of the schema table of AnyOfDiscriminatedRuntype are narrowed to their key only when the flag(s) %s hold: whether a variant carries several discriminator literals cannot be read off a count or a mode - for the inputs where the flag is off, a variant listed under two keys is printed twice with the same body, `oneOf` has two matching branches for its values and the schema rejects what validate() accepts" % flags,
                        "%s:%s" % (f.file, hit["line"]), sample={"fn": f.id, "flags": flags})
